@@ -82,8 +82,11 @@ def digest():
     so that a harmless internal cache in the parser module is not an alarm)."""
     import fsic.parser as P
     simple = {k: repr(v) for k, v in P.__dict__.items() if not k.startswith('__') and isinstance(v, (str, int, float, bool, tuple, dict, list, type(None)))}
+    # ... and which classes the parser module's namespace binds under which names (a build that leaves its generated class behind
+    # as a module-level name makes the next build, and pickling of earlier instances, depend on it)
+    classes = tuple(sorted((k, v.__module__, v.__qualname__) for k, v in P.__dict__.items() if isinstance(v, type)))
     return (tuple((f[0], repr(f[1]), f[2].__name__, repr(f[3]), f[4]) for f in warnings.filters), repr(sorted(np.geterr().items())), os.getcwd(),
-            tuple(sorted(simple.items())), len(builtins.__dict__), tuple(sys.path[:3]))
+            tuple(sorted(simple.items())), len(builtins.__dict__), tuple(sys.path[:3]), classes)
 
 
 def ref_split(script):
